@@ -25,9 +25,10 @@ def emission(ctx, key, args, vec_index):
     a = list(args)
     a.insert(vec_index, v)
     _, outs = backend.fold(ctx, key, a)
+    msg = backend.fold_verdict(outs, "R-ABI: %s" % key.split("::")[-1])
+    if msg:
+        return None         # the emission function panics on this input
     outs = [o for o in outs if not getattr(o, "diverged", None)]
-    if len(outs) != 1:
-        return None
     return outs[0].final.locals[vec_index + 1].items
 
 
@@ -156,7 +157,7 @@ def rule_abi(b):
                         codes = emission(ctx, pkey, [newline, src, ctxv], 3)
                         n_cases += 1
                         if codes is None:
-                            bad.append((k, pat, ap, ["print sequence could not be folded"], []))
+                            bad.append((k, pat, ap, ["the print sequence generator panics on this input"], []))
                             continue
                         m = isa.Machine(arch)
                         init = {}
